@@ -112,7 +112,6 @@ func (s *vNSStore) Rename(oldpath string, newpath string) error {
 	return nil
 }
 
-
 func vStub_os_Mkdir(name string, perm os.FileMode) error {
 	name = filepath.Clean(name)
 	if vNSFind(name) >= 0 {
